@@ -297,7 +297,12 @@ func opTag(op int) string {
 
 // ---- histories from constructor-built containers ----
 
-func history(steps int, maxSlices int) {
+// coreOps: a subset of the operations for the longest histories
+var coreOps = []int{0, 1, 2, 6, 8, 12, 14, 17, 20, 21, 23, 25}
+
+func history(steps int, maxSlices int) { historyOps(steps, maxSlices, false) }
+
+func historyOps(steps int, maxSlices int, core bool) {
 	k := rt.Len("k", 0, maxSlices)
 	var parts [][]byte
 	var m []byte
@@ -309,7 +314,13 @@ func history(steps int, maxSlices int) {
 	c := New(parts...)
 	ok := true
 	for s := 0; s < steps && ok; s++ {
-		op := rt.Choice("op"+string(rune('0'+s)), numOps)
+		var op int
+		if core {
+			// (package-level tables are initialised: the container package init runs)
+			op = coreOps[rt.Choice("op"+string(rune('0'+s)), len(coreOps))]
+		} else {
+			op = rt.Choice("op"+string(rune('0'+s)), numOps)
+		}
 		m, ok = applyOp(c, m, op, opTag(op)+string(rune('0'+s)))
 		if ok {
 			agree(c, m, "after-"+opTag(op))
@@ -333,7 +344,7 @@ func VerifC16_History2() {
 
 func VerifC16_History3() {
 	if rt.Thorough() {
-		history(3, 1)
+		historyOps(3, 1, true)
 	} else {
 		rt.Reach("history-end")
 	}
